@@ -4,12 +4,15 @@
 // harness: k_gc_drop_b props=C13,C14 kind=bounded tier=thorough timeout=900 obligation=Buffer::gc+trim_scrollback bound="limit 1, 1 row, 3 scrollback lines"
 // harness: k_gc_drop_c props=C13,C14 kind=bounded tier=thorough timeout=900 obligation=Buffer::gc+trim_scrollback bound="limit 2, 1 row, 3 scrollback lines"
 // harness: k_gc_drop_d props=C13,C14 kind=bounded tier=thorough timeout=900 obligation=Buffer::gc+trim_scrollback bound="limit 11, 1 row, 3 scrollback lines (no trim)"
-// harness: k_reflow_1x2_to_1 props=C01,C02,C10 kind=bounded tier=thorough timeout=1800 obligation=reflow/E1,E2,E3+logical text preserved bound="1 line of width 2 -> width 1"
-// harness: k_reflow_2x1_to_2 props=C01,C02,C10 kind=bounded tier=thorough timeout=1800 obligation=reflow/E1,E2,E3+logical text preserved bound="2 lines of width 1 -> width 2"
-// harness: k_reflow_2x2_to_1 props=C01,C02,C10 kind=bounded tier=thorough timeout=1800 obligation=reflow/E1,E2+logical text preserved bound="2 lines of width 2 -> width 1, cells from {blank, a}, symbolic wrap marks"
-// harness: k_reflow_2x2_to_3 props=C01,C02,C10 kind=bounded tier=thorough timeout=1800 obligation=reflow/E1,E2+logical text preserved bound="2 lines of width 2 -> width 3"
-// harness: k_reflow_3x1_to_2 props=C01,C02,C10 kind=bounded tier=thorough timeout=1800 obligation=reflow/E1,E2+logical text preserved bound="3 lines of width 1 -> width 2"
-// harness: k_reflow_3x2_to_3 props=C01,C02,C10 kind=bounded tier=thorough timeout=1800 obligation=reflow/E1,E2+logical text preserved bound="3 lines of width 2 -> width 3"
+// harness: k_gc_drop_e props=C01,C13,C14 kind=bounded tier=thorough timeout=1800 obligation=Buffer::gc+trim_scrollback(soft vs hard limit: nothing trimmed up to the hard limit) bound="soft 1 / hard 3 set directly, 1 row, 2 scrollback lines"
+// harness: k_gc_drop_f props=C01,C13,C14 kind=bounded tier=thorough timeout=1800 obligation=Buffer::gc+trim_scrollback(soft vs hard limit: above the hard limit trimmed down to the soft limit) bound="soft 1 / hard 3 set directly, 1 row, 4 scrollback lines"
+// harness: k_reflow_1x2_to_1 props=C01,C02,C10 kind=bounded tier=quick timeout=600 obligation=reflow/E1,E2,E3+logical text preserved bound="1 line of width 2 -> width 1, every content over {blank, a} and every wrap-mark assignment (enumerated concretely)"
+// harness: k_reflow_2x1_to_2 props=C01,C02,C10 kind=bounded tier=quick timeout=600 obligation=reflow/E1,E2,E3+logical text preserved bound="2 lines of width 1 -> width 2, every content over {blank, a} and every wrap-mark assignment (enumerated concretely)"
+// harness: k_reflow_2x2_to_1 props=C01,C02,C10 kind=bounded tier=thorough timeout=1800 obligation=reflow/E1,E2+logical text preserved bound="2 lines of width 2 -> width 1, every content over {blank, a} and every wrap-mark assignment (enumerated concretely)"
+// harness: k_reflow_2x2_to_3 props=C01,C02,C10 kind=bounded tier=thorough timeout=1800 obligation=reflow/E1,E2+logical text preserved bound="2 lines of width 2 -> width 3, every content over {blank, a} and every wrap-mark assignment (enumerated concretely)"
+// harness: k_reflow_3x1_to_2 props=C01,C02,C10 kind=bounded tier=thorough timeout=1800 obligation=reflow/E1,E2+logical text preserved bound="3 lines of width 1 -> width 2, every content over {blank, a} and every wrap-mark assignment (enumerated concretely)"
+// harness: k_reflow_3x2_to_3 props=C01,C02,C10 kind=bounded tier=thorough timeout=3600 obligation=reflow/E1,E2+logical text preserved bound="3 lines of width 2 -> width 3, every content over {blank, a} and every wrap-mark assignment (enumerated concretely)"
+// harness: k_reflow_collect props=C01,C02,C10 kind=bounded tier=quick timeout=600 obligation=reflow(= Reflow.collect() + width assertion) bound="one blank row of width 2 -> width 1"
 // harness: k_resize_cursor props=C10,C16 kind=bounded tier=thorough timeout=2400 obligation=Buffer::resize(cursor stays on its character; text above the cursor's logical line unchanged) bound="six concrete (rows, lines, new cols, new rows) cases, old width 2, symbolic cells, wrap marks and cursor"
 #[cfg(kani)]
 mod verif_kani_buffer {
@@ -70,10 +73,17 @@ mod verif_kani_buffer {
         if i == 0 { 'x' } else if i == 1 { 'y' } else if i == 2 { 'z' } else { ' ' }
     }
 
+    fn gc_case(limit: usize, rows: usize, extra: usize) {
+        gc_case2(limit, limit + limit / 10, rows, extra)
+    }
+
     /// `extra` scrollback lines tagged x, y, z followed by `rows` blank view lines (width 1);
     /// identity of a line is its tag, so no Vec<Line> has to be cloned or compared
-    fn gc_case(limit: usize, rows: usize, extra: usize) {
+    /// the limits are set directly so that soft < hard is reachable with a handful of lines
+    /// (through the constructor hard - soft = soft / 10 needs >= 10 lines of scrollback)
+    fn gc_case2(limit: usize, hard: usize, rows: usize, extra: usize) {
         let mut b = Buffer::new(1, rows, Some(limit), None);
+        b.scrollback_limit = Some(ScrollbackLimit { soft: limit, hard });
         let mut i = 0;
         while i < extra {
             let mut l = Line::blank(1, Pen::default());
@@ -84,7 +94,6 @@ mod verif_kani_buffer {
         b.trim_needed = kani::any();
         let trim = b.trim_needed;
         let len_before = b.lines.len();
-        let hard = limit + limit / 10;
         let consume: bool = kani::any();
         let mut n_drained = 0;
         let mut drained_ok = true;
@@ -129,6 +138,12 @@ mod verif_kani_buffer {
     #[kani::proof]
     #[kani::unwind(8)]
     fn k_gc_drop_d() { gc_case(11, 1, 3); kani::cover!(true); }
+    #[kani::proof]
+    #[kani::unwind(8)]
+    fn k_gc_drop_e() { gc_case2(1, 3, 1, 2); kani::cover!(true); }
+    #[kani::proof]
+    #[kani::unwind(8)]
+    fn k_gc_drop_f() { gc_case2(1, 3, 1, 4); kani::cover!(true); }
 
     fn lines_of(n: usize, w: usize) -> Vec<Line> {
         let mut lines: Vec<Line> = Vec::new();
@@ -149,34 +164,44 @@ mod verif_kani_buffer {
     struct Text {
         buf: [char; 24],
         len: usize,
+        pending: usize, // blanks seen since the last non-blank of the current logical line
     }
 
-    fn logical(lines: &[Line]) -> Text {
-        let mut t = Text { buf: ['\0'; 24], len: 0 };
-        let mut pending = 0; // blanks seen since the last non-blank of the current logical line
-        let mut i = 0;
-        while i < lines.len() {
+    impl Text {
+        fn new() -> Text {
+            Text { buf: ['\0'; 24], len: 0, pending: 0 }
+        }
+
+        fn push_row(&mut self, line: &Line) {
             let mut c = 0;
-            while c < lines[i].cells.len() {
-                let ch = lines[i].cells[c].char();
+            while c < line.cells.len() {
+                let ch = line.cells[c].char();
                 if ch == ' ' {
-                    pending += 1;
+                    self.pending += 1;
                 } else {
-                    while pending > 0 {
-                        t.buf[t.len] = ' ';
-                        t.len += 1;
-                        pending -= 1;
+                    while self.pending > 0 {
+                        self.buf[self.len] = ' ';
+                        self.len += 1;
+                        self.pending -= 1;
                     }
-                    t.buf[t.len] = ch;
-                    t.len += 1;
+                    self.buf[self.len] = ch;
+                    self.len += 1;
                 }
                 c += 1;
             }
-            if !lines[i].wrapped {
-                pending = 0;
-                t.buf[t.len] = '\n';
-                t.len += 1;
+            if !line.wrapped {
+                self.pending = 0;
+                self.buf[self.len] = '\n';
+                self.len += 1;
             }
+        }
+    }
+
+    fn logical(lines: &[Line]) -> Text {
+        let mut t = Text::new();
+        let mut i = 0;
+        while i < lines.len() {
+            t.push_row(&lines[i]);
             i += 1;
         }
         t
@@ -198,54 +223,85 @@ mod verif_kani_buffer {
 
     /// one concrete geometry, symbolic cells ({blank, 'a'}) and wrap marks: every output line has
     /// the new width, the last one is not wrapped, and the logical text is unchanged
-    fn reflow_case(n: usize, w: usize, cols: usize) {
-        let lines = lines_of(n, w);
-        let before = logical(&lines);
-        let out = reflow(lines.into_iter(), cols);
-        let mut j = 0;
-        while j < out.len() {
-            assert!(out[j].cells.len() == cols);
-            j += 1;
+    /// Drives the real `Reflow` iterator by hand over an array of N rows (no Vec of rows, no
+    /// `collect()`), for EVERY content over {blank, 'a'} and every wrap-mark assignment - enumerated
+    /// as concrete cases inside the harness: with symbolic cells the `truncate` / `split_off` /
+    /// `extend` calls get symbolic lengths and CBMC does not finish even for one row.
+    fn reflow_case<const N: usize>(w: usize, cols: usize) {
+        let bits = N * w + (N - 1);
+        let mut code: u32 = 0;
+        while code < (1u32 << bits) {
+            let mut lines: [Line; N] = core::array::from_fn(|_| Line::blank(w, Pen::default()));
+            let mut b = 0;
+            let mut i = 0;
+            while i < N {
+                let mut c = 0;
+                while c < w {
+                    if (code >> b) & 1 == 1 {
+                        lines[i].cells[c] = Cell::new('a', Pen::default());
+                    }
+                    b += 1;
+                    c += 1;
+                }
+                // Buffer::wf: the last line is never wrapped
+                if i + 1 < N {
+                    lines[i].wrapped = (code >> b) & 1 == 1;
+                    b += 1;
+                }
+                i += 1;
+            }
+            let before = logical(&lines);
+            let mut r = Reflow { iter: lines.into_iter(), cols, rest: None };
+            let mut after = Text::new();
+            let mut count = 0;
+            let mut last_wrapped = true;
+            while let Some(l) = r.next() {
+                // reflow/E1: every row has the new width
+                assert!(l.cells.len() == cols);
+                after.push_row(&l);
+                last_wrapped = l.wrapped;
+                count += 1;
+                assert!(count <= 8);
+            }
+            // reflow/E2: at least one row, the last one not wrapped
+            assert!(count >= 1 && !last_wrapped);
+            // reflow/E4 [C10]: logical text unchanged up to trailing blanks; E3: same number of logical lines
+            assert!(same_text(&before, &after));
+            code += 1;
         }
-        assert!(out.len() >= 1);
-        assert!(!out[out.len() - 1].wrapped);
-        let after = logical(&out);
-        assert!(same_text(&before, &after));
-        // reflow/E3 (assumed by Buffer::resize's proof): the number of logical lines is kept
-        let mut ends_in = 0;
-        let mut ends_out = 0;
-        let mut k = 0;
-        while k < before.len {
-            if before.buf[k] == '\n' { ends_in += 1; }
-            k += 1;
-        }
-        k = 0;
-        while k < after.len {
-            if after.buf[k] == '\n' { ends_out += 1; }
-            k += 1;
-        }
-        assert!(ends_in == ends_out);
-        kani::cover!(out.len() != n);
+        kani::cover!(code == (1u32 << bits));
     }
 
     #[kani::proof]
     #[kani::unwind(10)]
-    fn k_reflow_1x2_to_1() { reflow_case(1, 2, 1) }
+    fn k_reflow_1x2_to_1() { reflow_case::<1>(2, 1) }
     #[kani::proof]
     #[kani::unwind(10)]
-    fn k_reflow_2x1_to_2() { reflow_case(2, 1, 2) }
+    fn k_reflow_2x1_to_2() { reflow_case::<2>(1, 2) }
+    #[kani::proof]
+    #[kani::unwind(34)]
+    fn k_reflow_2x2_to_1() { reflow_case::<2>(2, 1) }
+    #[kani::proof]
+    #[kani::unwind(34)]
+    fn k_reflow_2x2_to_3() { reflow_case::<2>(2, 3) }
+    #[kani::proof]
+    #[kani::unwind(34)]
+    fn k_reflow_3x1_to_2() { reflow_case::<3>(1, 2) }
+    #[kani::proof]
+    #[kani::unwind(258)]
+    fn k_reflow_3x2_to_3() { reflow_case::<3>(2, 3) }
+
+    /// `reflow()` = collect the iterator + width assertion: one concrete run through the real function
     #[kani::proof]
     #[kani::unwind(10)]
-    fn k_reflow_2x2_to_1() { reflow_case(2, 2, 1) }
-    #[kani::proof]
-    #[kani::unwind(10)]
-    fn k_reflow_2x2_to_3() { reflow_case(2, 2, 3) }
-    #[kani::proof]
-    #[kani::unwind(10)]
-    fn k_reflow_3x1_to_2() { reflow_case(3, 1, 2) }
-    #[kani::proof]
-    #[kani::unwind(10)]
-    fn k_reflow_3x2_to_3() { reflow_case(3, 2, 3) }
+    fn k_reflow_collect() {
+        let mut a = Line::blank(2, Pen::default());
+        a.cells[1] = Cell::new('a', Pen::default());
+        let out = reflow([a].into_iter(), 1);
+        assert!(out.len() == 2 && out[0].cells.len() == 1 && out[1].cells.len() == 1 && out[0].wrapped && !out[1].wrapped);
+        assert!(out[1].cells[0].char() == 'a');
+        kani::cover!(true);
+    }
 
     fn resize_case(rows: usize, total: usize, new_cols: usize, new_rows: usize) {
         let mut b = Buffer::new(2, rows, None, None);
